@@ -630,6 +630,9 @@ func (f *Fix) Replay(h History, v Variant) (Trace, *world.World) {
 	if v.Noise {
 		hooks.Between = func(w *world.World, label string, next []byte) {
 			if next != nil {
+				// a client estimates the gas of its transaction by simulation (the one node-local entry point
+				// that executes messages), then submits it
+				_, _, _ = w.App.Simulate(next)
 				w.App.CheckTx(abci.RequestCheckTx{Tx: next, Type: abci.CheckTxType_New})
 			}
 			w.App.Query(abci.RequestQuery{Path: "/cosmos.bank.v1beta1.Query/TotalSupply"})
@@ -802,6 +805,10 @@ func LifecycleChains(tmpl []Template, nBase int) []Plan {
 	chain("liquidate", "erc20SendToModule", "govToggleLiquid0", "erc20SendToModule", "redeemAll")
 	chain("evmCreate", "govEvmParams", "evmCreate", "evmBankQuery", "pcDelegate")
 	chain("evmTransfer", "govFeemarketParams", "evmTransfer", "evmDirtyCall", "evmTransfer")
+	// fees paid out of staking rewards (two delegations with pending rewards, either would do)
+	if i, ok := ix["stakeAllWithTwoValidators"]; ok {
+		out = append(out, Plan{Name: "chain:stakeAllWithTwoValidators>3 blocks>payFeeFromStakingRewards", Blocks: [][]int{{i}, {}, {}, {}, {ix["payFeeFromStakingRewards"]}}, Tail: 2})
+	}
 	// the same earlier block hash read twice, the second time after its header left the (short) history
 	if i, ok := ix["evmBlockHash"]; ok {
 		out = append(out, Plan{Name: "chain:evmBlockHash>5 blocks>evmBlockHash", Blocks: [][]int{{i}, {}, {}, {}, {}, {}, {i}}, Tail: 2})
@@ -821,6 +828,36 @@ func LifecycleChains(tmpl []Template, nBase int) []Plan {
 	out = append(out, Plan{Name: "chain:sub-millisecond block times", Blocks: [][]int{{ix["bankSend"]}, {}, {}, {}, {}, {}},
 		Dts: []time.Duration{6*time.Second + 900*us, 6*time.Second - 800*us, 6*time.Second + 700*us, 6*time.Second - 600*us, 6*time.Second + 500*us, 6*time.Second - 400*us}, Tail: 2})
 	return out
+}
+
+// ChainTemplates are used inside life-cycle chains only (not as singles or in pairs): an account
+// stakes nearly everything with both validators, and - blocks later, rewards accrued - pays a fee
+// above its liquid balance (the ante handler then claims just enough staking rewards to cover it).
+func ChainTemplates() []Template {
+	x := sdk.AccAddress(world.Key(54).PubKey().Address().Bytes())
+	e18 := sdkmath.NewIntFromBigInt(new(big.Int).Exp(big.NewInt(10), big.NewInt(18), nil))
+	stake := Template{Name: "stakeAllWithTwoValidators", Steps: []func(w *world.World, _ precomp.ABIs) []byte{
+		func(w *world.World, _ precomp.ABIs) []byte {
+			return cosmosTx(w, 1, banktypes.NewMsgSend(w.Addrs[1], x, sdk.NewCoins(sdk.NewCoin(world.Denom, e18.MulRaw(2).AddRaw(1000)))))
+		},
+		func(w *world.World, _ precomp.ABIs) []byte {
+			return cosmosTx(w, 54, stakingtypes.NewMsgDelegate(x, w.ValAddr[0], sdk.NewCoin(world.Denom, e18)))
+		},
+		func(w *world.World, _ precomp.ABIs) []byte {
+			return cosmosTx(w, 54, stakingtypes.NewMsgDelegate(x, w.ValAddr[1], sdk.NewCoin(world.Denom, e18)))
+		},
+	}}
+	pay := Template{Name: "payFeeFromStakingRewards", Build: func(w *world.World, _ precomp.ABIs) [][]byte {
+		// fee = liquid balance + 1e9: more than the account holds, less than the rewards of one delegation
+		bal := w.App.BankKeeper.GetBalance(w.Ctx(), x, world.Denom).Amount
+		bz, err := w.CosmosTx(w.Ctx(), world.CosmosSpec{Key: world.Key(54), Gas: 300000, Fee: sdk.NewCoins(sdk.NewCoin(world.Denom, bal.AddRaw(1000000000))),
+			Msgs: []sdk.Msg{banktypes.NewMsgSend(x, w.Addrs[2], sdk.NewCoins(sdk.NewInt64Coin(world.Denom, 1)))}})
+		if err != nil {
+			panic(err)
+		}
+		return [][]byte{bz}
+	}}
+	return []Template{stake, pay}
 }
 
 // StateShapeTemplates produce committed states of unusual shape (used where the state itself is the
